@@ -399,6 +399,9 @@ func c19Wrong(f c19Field, s c19Sample) bool {
 	if f.Kind == "free" {
 		return false
 	}
+	if f.Kind == "duration" {
+		return s.Kind != "string" && s.Kind != "number"
+	}
 	if s.Kind != f.Kind {
 		return true
 	}
